@@ -116,7 +116,7 @@ def run(ck):
                      f"task registry trace rejected at event {l} ({t[l - 1] if 0 < l <= len(t) else None}) for opts={opts} ops={list(ops)}",
                      {"opts": opts, "ops": list(ops), "trace": t, "rejected_at": l})
     muts = []
-    for t, (opts, ops) in zip(traces, meta):
+    for t, (opts, ops) in [(t, m) for i, (t, m) in enumerate(zip(traces, meta)) if i not in res.bad]:
         if len(muts) >= 90:
             break
         if opts["restart_after_reconnect"]:
